@@ -9,6 +9,8 @@ mkdir -p tools/claims.d known_findings.d
 git -C $W/verif status --short | grep -v '^??' || true
 echo "--- untracked in worktree:"; git -C $W/verif status --short | grep '^??' || true
 git merge --no-edit w$id 2>&1 | tail -3
+# evidence files and the manifest are regenerated here, never merged
+for f in $(git diff --name-only --diff-filter=U | grep -E '^(evidence/|MANIFEST.json)'); do git checkout --ours -- $f; git add $f; done
 [ -f tools/claims.d/$id.json ] || { [ -f $W/verif/tools/claims.d/$id.json ] && cp $W/verif/tools/claims.d/$id.json tools/claims.d/; }
 [ -f known_findings.d/$id.json ] || { [ -f $W/verif/known_findings.d/$id.json ] && cp $W/verif/known_findings.d/$id.json known_findings.d/; }
 # repo fixes
